@@ -229,6 +229,7 @@ pub fn run(ctx: &Ctx) -> PropResult {
     let mut meta = PropMeta::default();
     meta.rule = "The C03 pair generator (instants in 8 strata x deltas {0, ±1 ns, sub-second, k units ± few ns for each of the 7 units, days, 2^62 ns, uniform} x two independent offsets): each of the 7 DateTime::*_since must equal (i_a − i_b)/unit truncated toward zero in i128, be antisymmetric, and (for counts < 2^32 with a representable upper bound) satisfy b.add_u(n) <= a < b.add_u(n+1); duration_between must equal |i_a − i_b| both ways. Time pairs (6 units, stored nanoseconds) and Date pairs (days) likewise. Every pair is non-trivial (bins report the borrow / sub-unit / negative-path classes); distinct by input hash.".into();
     meta.required_bins = vec![
+        "local-twin/judged", "local-twin/synthetic-fixed-zone", "local-twin/real-zone-with-transitions",
         "pair/equal-instant", "pair/straddles-0001-01-01", "pair/sub-second", "pair/straddles-midnight-within-24h",
         "seconds/remainder-borrow", "hours/remainder-borrow", "days/remainder-borrow", "minutes/below-one-unit", "millis/negative-days-path", "days/negative-days-path",
         "nanos/diff0", "time/hours/remainder-borrow", "time/seconds/below-one-unit", "date/straddles-era", "add-inverse/checked",
